@@ -84,7 +84,8 @@ class World:
         plan["net"].setdefault("seed", run_seed ^ 0x9E3779B9)
         if "sched" not in plan:
             plan["sched"] = {"mode": "random", "seed": run_seed ^ 0x5DEECE66D,
-                             "p_line": plan.pop("p_line", 0.0), "p_block": plan.pop("p_block", 0.0)}
+                             "p_line": plan.pop("p_line", 0.0), "p_block": plan.pop("p_block", 0.0),
+                             "p_stall": plan.pop("p_stall", 0.0)}
         return plan
 
     # ---- one run
@@ -131,6 +132,7 @@ class World:
             "steps": sched.steps,
             "switches": sched.switches,
             "preempts": sched.preempts,
+            "stalls": sched.stalls,
             "sim_s": sched.now - S.EPOCH,
             "choices": sched.choices,
             "nontrivial": bool(ctx.nontrivial),
